@@ -1,10 +1,10 @@
 SPECIFICATION Spec
 CONSTANTS
-  N = 3
-  MaxWork = 2
-  MaxDup = 1
-  Verdicts = {"ok", "bad_nc", "bad_ctx"}
-  Heavy = 0
+  N = 5
+  MaxWork = 1
+  MaxDup = 0
+  Verdicts = {"ok", "bad_ctx"}
+  Heavy = 3
   PreFix = FALSE
   Emit = TRUE
 INVARIANT TypeOK
